@@ -8,27 +8,33 @@ use flatcontainer::{IntoOwned, Push, Region};
 use std::collections::BTreeMap;
 
 pub trait Sym: Val + Ord + Copy {
-    fn from_u16(x: u16) -> Self;
+    fn from_u32(x: u32) -> Self;
     const TY: &'static str;
 }
 impl Sym for u8 {
-    fn from_u16(x: u16) -> u8 {
+    fn from_u32(x: u32) -> u8 {
         x as u8
     }
     const TY: &'static str = "u8";
 }
 impl Sym for u16 {
-    fn from_u16(x: u16) -> u16 {
-        x
+    fn from_u32(x: u32) -> u16 {
+        x as u16
     }
     const TY: &'static str = "u16";
+}
+impl Sym for u32 {
+    fn from_u32(x: u32) -> u32 {
+        x
+    }
+    const TY: &'static str = "u32";
 }
 
 #[derive(Clone, Debug)]
 pub struct Profile {
     pub name: String,
     /// (symbol, count)
-    pub counts: Vec<(u16, u64)>,
+    pub counts: Vec<(u32, u64)>,
 }
 
 /// Statistics whose total exceeds u32::MAX: the first symbol's region is handed to merge_regions 65536
@@ -41,7 +47,7 @@ pub fn fib_profile(k: usize) -> Profile {
     let mut c = Vec::new();
     let (mut a, mut b) = (1u64, 1u64);
     for i in 0..k {
-        c.push((10 * (i as u16 + 1), a));
+        c.push((10 * (i as u32 + 1), a));
         let t = a + b;
         a = b;
         b = t;
@@ -50,11 +56,11 @@ pub fn fib_profile(k: usize) -> Profile {
 }
 
 pub fn uniform_profile(n: usize, count: u64) -> Profile {
-    Profile { name: format!("uniform{n}x{count}"), counts: (0..n).map(|i| (i as u16 * 7 + 1, count)).collect() }
+    Profile { name: format!("uniform{n}x{count}"), counts: (0..n).map(|i| (i as u32 * 7 + 1, count)).collect() }
 }
 
 pub fn mixed_profile(n: usize) -> Profile {
-    Profile { name: format!("mixed{n}"), counts: (0..n).map(|i| (i as u16 * 3 + 2, 1 + (i as u64 % 7) * (i as u64 % 3))).collect() }
+    Profile { name: format!("mixed{n}"), counts: (0..n).map(|i| (i as u32 * 3 + 2, 1 + (i as u64 % 7) * (i as u64 % 3))).collect() }
 }
 
 pub fn small_profiles(max_n: usize) -> Vec<Profile> {
@@ -65,7 +71,7 @@ pub fn small_profiles(max_n: usize) -> Vec<Profile> {
             let mut c = code;
             let mut counts = Vec::new();
             for i in 0..n {
-                counts.push((10 * (i as u16 + 1), 1 + (c % 3) as u64));
+                counts.push((10 * (i as u32 + 1), 1 + (c % 3) as u64));
                 c /= 3;
             }
             let name = format!("counts{:?}", counts.iter().map(|x| x.1).collect::<Vec<_>>());
@@ -96,7 +102,7 @@ pub fn optimal_bits(counts: &[u64]) -> u128 {
     }
 }
 
-struct Gen<B: Sym> {
+pub(crate) struct Gen<B: Sym> {
     c: HuffmanContainer<B>,
     coded: bool,
     /// statistics the current code was built from
@@ -172,7 +178,7 @@ impl<B: Sym> HuffMachine<B> {
 
     /// Builds a coded container for `counts`, measures the code lengths through the API and
     /// checks them against the reference optimum.
-    fn build(counts: BTreeMap<B, u64>, generation: usize) -> Result<Gen<B>, String> {
+    pub(crate) fn build(counts: BTreeMap<B, u64>, generation: usize) -> Result<Gen<B>, String> {
         // the statistics are spread over two source regions with overlapping alphabets: the code must
         // be built from the *summed* counts
         let (mut ca, mut cb) = (BTreeMap::new(), BTreeMap::new());
@@ -294,9 +300,9 @@ impl<B: Sym> HuffMachine<B> {
 
     fn unknown_symbol(&self) -> B {
         // a symbol that is neither in the current code nor in the profile
-        let mut x = 65_521u16;
+        let mut x = 0x7fff_fff1u32;
         loop {
-            let s = B::from_u16(x);
+            let s = B::from_u32(x);
             if !self.g.code_counts.contains_key(&s) {
                 return s;
             }
@@ -358,7 +364,7 @@ impl<B: Sym> HuffMachine<B> {
                 return Err(format!("after {what}: into_owned of item #{k} gives {}", crate::spec::show(&o)));
             }
             // IntoOwned laws on (possibly encoded) items: clone_onto over a shorter and a longer target
-            for t0 in [vec![], vec![item.first().copied().unwrap_or(B::from_u16(1)); item.len() + 2]] {
+            for t0 in [vec![], vec![item.first().copied().unwrap_or(B::from_u32(1)); item.len() + 2]] {
                 let mut t = t0.clone();
                 guard(|| c.index(*idx).clone_onto(&mut t)).map_err(|p| format!("after {what}: clone_onto of item #{k} panicked: {p}"))?;
                 if &t != item {
@@ -383,7 +389,7 @@ impl<B: Sym> HuffMachine<B> {
             0 => c.push(it.as_slice()),
             WRAPPED_RAW => {
                 let mut donor = HuffmanContainer::<B>::default();
-                let _ = donor.push(vec![it.first().copied().unwrap_or(B::from_u16(1))]);
+                let _ = donor.push(vec![it.first().copied().unwrap_or(B::from_u32(1))]);
                 let i = donor.push(it.as_slice());
                 c.push(donor.index(i))
             }
@@ -475,7 +481,7 @@ impl<B: Sym> Machine for HuffMachine<B> {
         self.cloned = false;
         self.tags.clear();
         self.setup_error = None;
-        let counts: BTreeMap<B, u64> = self.profile.counts.iter().map(|(s, n)| (B::from_u16(*s), *n)).collect();
+        let counts: BTreeMap<B, u64> = self.profile.counts.iter().map(|(s, n)| (B::from_u32(*s), *n)).collect();
         match Self::build(counts, 1) {
             Ok(g) => self.g = g,
             Err(e) => {
@@ -544,7 +550,7 @@ impl<B: Sym> Machine for HuffMachine<B> {
                 let mut extra = HuffmanContainer::<B>::default();
                 if op == OP_MERGE2 {
                     for (s, _) in &self.profile.counts {
-                        let b = B::from_u16(*s);
+                        let b = B::from_u32(*s);
                         let _ = extra.push(vec![b]);
                         *counts.entry(b).or_insert(0) += 1;
                     }
@@ -707,7 +713,7 @@ impl<B: Sym> Machine for HuffCmpMachine<B> {
     }
     fn reset(&mut self) {
         self.done = false;
-        let syms: Vec<B> = self.profile.counts.iter().map(|c| B::from_u16(c.0)).take(3).collect();
+        let syms: Vec<B> = self.profile.counts.iter().map(|c| B::from_u32(c.0)).take(3).collect();
         let mut items: Vec<Vec<B>> = vec![vec![]];
         let mut frontier: Vec<Vec<B>> = vec![vec![]];
         for _ in 0..3 {
@@ -735,7 +741,7 @@ impl<B: Sym> Machine for HuffCmpMachine<B> {
                 items.push(b);
             }
         }
-        let counts1: BTreeMap<B, u64> = self.profile.counts.iter().map(|(s, n)| (B::from_u16(*s), *n)).collect();
+        let counts1: BTreeMap<B, u64> = self.profile.counts.iter().map(|(s, n)| (B::from_u32(*s), *n)).collect();
         // a different code for the same alphabet: counts reversed and squared
         let n = self.profile.counts.len();
         let counts2: BTreeMap<B, u64> = self
@@ -743,7 +749,7 @@ impl<B: Sym> Machine for HuffCmpMachine<B> {
             .counts
             .iter()
             .enumerate()
-            .map(|(i, (s, _))| (B::from_u16(*s), { let c = self.profile.counts[n - 1 - i].1.min(64); c * c + i as u64 }))
+            .map(|(i, (s, _))| (B::from_u32(*s), { let c = self.profile.counts[n - 1 - i].1.min(64); c * c + i as u64 }))
             .collect();
         let s1 = HuffMachine::<B>::source_from(&counts1);
         let s2 = HuffMachine::<B>::source_from(&counts2);
@@ -805,6 +811,77 @@ impl<B: Sym> Machine for HuffCmpMachine<B> {
             }
         }
         self.tags.push(format!("pairs:{pairs}"));
+        Step::Ok
+    }
+    fn fingerprint(&self) -> Option<String> {
+        None
+    }
+    fn drain_tags(&mut self) -> Vec<String> {
+        std::mem::take(&mut self.tags)
+    }
+}
+
+// ---------------------------------------------------------------------------------------------
+// One-step machine for very large alphabets: build the code once, measure every symbol's code length
+// (acceptance, Kraft equality, optimality) and read a few items back.
+
+pub struct HuffBuildMachine<B: Sym> {
+    profile: Profile,
+    done: bool,
+    tags: Vec<String>,
+    _b: std::marker::PhantomData<B>,
+}
+
+impl<B: Sym> HuffBuildMachine<B> {
+    pub fn new(profile: Profile) -> Self {
+        HuffBuildMachine { profile, done: false, tags: vec![], _b: std::marker::PhantomData }
+    }
+}
+
+impl<B: Sym> Machine for HuffBuildMachine<B> {
+    fn name(&self) -> String {
+        format!("huffman-build/{}/{}", B::TY, self.profile.name)
+    }
+    fn reset(&mut self) {
+        self.done = false;
+    }
+    fn enabled(&self) -> Vec<OpId> {
+        if self.done {
+            vec![]
+        } else {
+            vec![0]
+        }
+    }
+    fn describe(&self, _op: OpId) -> String {
+        format!("merge_regions over sources holding the statistics {}; push every symbol once; read back", self.profile.name)
+    }
+    fn step(&mut self, _op: OpId) -> Step {
+        self.done = true;
+        let counts: BTreeMap<B, u64> = self.profile.counts.iter().map(|(s, n)| (B::from_u32(*s), *n)).collect();
+        let mut g = match HuffMachine::<B>::build(counts.clone(), 1) {
+            Ok(g) => g,
+            Err(e) => return Step::Violation(e),
+        };
+        let syms: Vec<B> = counts.keys().cloned().collect();
+        let n = syms.len();
+        let items: Vec<Vec<B>> = vec![vec![syms[0]], vec![syms[n / 2], syms[n - 1]], vec![syms[n - 1], syms[0], syms[n / 3]], vec![]];
+        let mut issued = vec![];
+        for it in &items {
+            let c = &mut g.c;
+            match guard(|| c.push(it.as_slice())) {
+                Ok(i) => issued.push(i),
+                Err(p) => return Step::Violation(format!("push({}) panicked: {p}", crate::spec::show(it))),
+            }
+        }
+        for (i, it) in issued.iter().zip(&items) {
+            let c = &g.c;
+            match guard(|| c.index(*i).into_owned()) {
+                Ok(o) if &o == it => {}
+                Ok(o) => return Step::Violation(format!("pushed {}, reads {}", crate::spec::show(it), crate::spec::show(&o))),
+                Err(p) => return Step::Violation(format!("reading {} panicked: {p}", crate::spec::show(it))),
+            }
+        }
+        self.tags.push(format!("built:symbols{}", n));
         Step::Ok
     }
     fn fingerprint(&self) -> Option<String> {
